@@ -400,6 +400,7 @@ CHECKS["C05"] = dict(
           dict(name="first-contact", test="^TestFirstContactConcurrent$", kind="plain", quick=dict(n=3000, procs=1, timeout=600), thorough=dict(n=48000, procs=8, timeout=3000)),
           dict(name="class-J", test="^TestClassJ$", quick=dict(n=60, procs=3, batch=20, timeout=600), thorough=dict(n=3000, procs=6, batch=50, timeout=3000)),
           dict(name="class-L", test="^TestClassL$", quick=dict(n=40, procs=2, batch=20, timeout=600), thorough=dict(n=2000, procs=4, batch=50, timeout=3000)),
+          dict(name="class-P", test="^TestClassP$", quick=dict(n=120, procs=4, batch=30, timeout=600), thorough=dict(n=4000, procs=4, batch=50, timeout=3000)),
           dict(name="class-C", test="^TestClassC$", quick=dict(n=30, procs=2, batch=15, timeout=600), thorough=dict(n=1500, procs=3, batch=50, timeout=3000)),
           dict(name="class-D", test="^TestClassD$", quick=dict(n=30, procs=2, batch=15, timeout=600), thorough=dict(n=1500, procs=3, batch=50, timeout=3000))],
 )
